@@ -76,6 +76,62 @@ def _match_d22(stream, line, impl, model):
     return bool(TRAILING_COMMENT.search(text)) and out.endswith("err 4")
 
 
+
+# ---- the parser state-machine model (JV.Model.JsonParser) against the real parser, state by state -------------------------------------
+DBL = re.compile(r" D[0-9a-f]{16}")
+BIGDEC = re.compile(r" S[0-9a-f]+@bigdec")
+
+
+def pevents_line(opts, text, cuts):
+    return "jt pevents %s x%s %s" % (opts, text.hex(), ",".join(str(c) for c in cuts) if cuts else "-")
+
+
+def pevents_from(lines, rng, all_splits_upto=0):
+    """the same texts and options as the given parse/deliver lines, handed to the push parser in pieces: whole, byte by byte, random pieces
+    (and, for short texts, every single split point)"""
+    out = []
+    for l in lines:
+        t = l.split()
+        if t[1] not in ("parse", "deliver"):
+            continue
+        opts, text = t[3], bytes.fromhex(t[4][1:])
+        n = len(text)
+        if "d" not in opts:
+            opts += "d1024"
+        r = rng.random()
+        if n <= all_splits_upto:
+            out.append(pevents_line(opts, text, []))
+            for i in range(1, n):
+                out.append(pevents_line(opts, text, [i]))
+            out.append(pevents_line(opts, text, list(range(1, n))))
+        elif r < 0.3 or n < 2:
+            out.append(pevents_line(opts, text, []))
+        elif r < 0.65 and n <= 400:
+            out.append(pevents_line(opts, text, list(range(1, n))))
+        else:
+            k = rng.randint(1, min(8, n - 1))
+            out.append(pevents_line(opts, text, sorted(rng.sample(range(1, n), k))))
+    return out
+
+
+def compare_pevents(line, impl, model):
+    """tie: outcome, event sequence and the suspended state after every piece; a double's bits are not part of the parser model"""
+    impl = DBL.sub(" D?", impl)
+    if "n0" in line.split()[2]:
+        # lossless_number off: a literal with fraction/exponent is a double, or - out of double range with lossless_bignum - its text;
+        # which of the two is number classification (C04), not the state machine
+        impl = BIGDEC.sub(" D?", impl)
+    return impl == model
+
+
+def pevents_oracle(line, impl, model, ref=None):
+    return None
+
+
+def pevents_nontrivial(line, impl):
+    t = line.split()
+    return (t[3], t[4]) if len(t[3]) > 8 else None
+
 def nontrivial(line, impl):
     t = line.split()
     return t[4] if impl.startswith("ok") and len(t[4]) > 8 else None
@@ -122,7 +178,7 @@ def gen_wide(rng, n):
 
 BASE_DOCS = [b'[1,2]', b'[1,]', b'[,]', b'[1,,2]', b'{"a":1}', b'{"a":1,}', b'{,}', b'{"a":1,"b":2}', b'{"a":[1,],"b":{},}', b'[[],]', b'[{},{"k":[]},]',
              b'{"a":{"b":1,},}', b'[1 2]', b'{"a" 1}', b'{"a":1 "b":2}', b'[1,2', b'{"a":', b'{"a":1,"a":2}', b'1', b'"s"', b'true', b'[', b']', b'{}', b'[]']
-COMMENTS = [b"/**/", b"/*c*/", b"//c\n", b"/* , */", b"/*]*/", b"/*}*/", b"//\r\n", b"/*/*/", b"/", b"/*", b"//", b"*/"]
+COMMENTS = [b"/**/", b"/***/", b"/* a **/", b"/** *** **/", b"/*c*/", b"//c\n", b"/* , */", b"/*]*/", b"/*}*/", b"//\r\n", b"/*/*/", b"/", b"/*", b"//", b"*/"]
 
 
 def split_tokens(doc):
@@ -247,6 +303,9 @@ def streams(ctx, rng, scale):
         le = gen_exhaustive(4, rng) + gen_exhaustive(6, rng, sample=60000)
         ctx.cov["exhaustive_note"] = "every string of <= 4 tokens over a 29-token JSON alphabet x 2 option sets"
     ctx.correspond("token-strings", HARNESS, le, oracle, nontrivial, ref_lines=with_ref(le), want_model=False)
+    # the Lean model of the parser's state machine, tied state by state (hook verif_inspect) and outcome by outcome
+    lm = pevents_from(lc + lu + ld, rng, all_splits_upto=12) + pevents_from(lr + lq[:40], rng) + pevents_from(le[:4000], rng, all_splits_upto=6)
+    ctx.correspond("parser-model", HARNESS, lm, pevents_oracle, pevents_nontrivial, compare=compare_pevents)
 
 
 def run(ctx):
